@@ -397,7 +397,7 @@ def r_keep(ck: Checker) -> None:
     ck.add("every statement goes through superseeding and boolean removal", ok, func, app, f"appended value: {sorted(texts)}", "", nontrivial=False)
     key = next(iter(texts)) if texts else "?"
     ok2, n = every_iteration_reaches(ck, func, loop, app, Pins.of(facts={key: True}))  # type: ignore[arg-type]
-    ck.add("a statement that remove_boolean returns is emitted", ok2 and n > 0, func, app, f"under `remove_boolean(...)` truthy every iteration appends: {ok2}", "no other reason to drop a statement exists")
+    ck.add("a statement that remove_boolean returns is emitted", ok2 and n > 0, func, app, f"under `remove_boolean(...)` truthy every iteration appends: {ok2}", "no other reason to drop a statement exists: in particular a statement equal to an earlier one is not a duplicate to drop (a multi-part encoding repeats `#program base.`; directives appear verbatim, once each, in order)")
     ck.add("statements are emitted in program order", "prg" in unparse(loop.iter) and not isinstance(loop.iter, ast.Call) or unparse(loop.iter) in ("prg",), func, loop, f"loop over `{unparse(loop.iter)}`", "", nontrivial=False)  # type: ignore[union-attr]
 
 
@@ -455,6 +455,6 @@ RULES = [
     Rule("C08.TABLE.superseeded", P + ("C04",), r_superseeded_table),
     Rule("C08.D1.scope", P + ("C04",), r_scope),
     Rule("C08.TABLE.true-false", P, r_truth_tables),
-    Rule("C08.E.keep", P, r_keep),
+    Rule("C08.E.keep", P, r_keep, extra={"C07": ("a statement that remove_boolean returns is emitted",)}),
     Rule("C08.local-superseed", P, r_local_superseed),
 ]
